@@ -591,6 +591,8 @@ where
         #[cfg(feature = "verif")]
         crate::verif::point(crate::verif::pt::EXEC_START, txid);
         let tx_env = self.txs[txid].clone();
+        // Only an attempt that begins at the commit head reads exactly the in-order state.
+        let started_at_head = self.scheduler_ctx.committed_idx() == txid;
         let IncarnationExecution { result, accesses } =
             executor.execute_incarnation(tx_version.clone(), tx_env);
 
@@ -718,10 +720,18 @@ where
                     #[cfg(feature = "verif")]
                     crate::verif::point(crate::verif::pt::EXEC_ERR_HEAD_CHECK, txid);
                     if self.scheduler_ctx.committed_idx() == txid {
-                        if invalid_transaction {
-                            self.abort(AbortReason::FallbackSequential);
-                        } else {
+                        // A speculative failure is authoritative only if the attempt started at
+                        // the commit head (no stale reads) and ran under the configured nonce
+                        // semantics (workers always disable the nonce check). Otherwise in-order
+                        // execution may skip or complete this transaction, so let sequential
+                        // replay from the committed prefix decide and report the exact index.
+                        if !invalid_transaction &&
+                            started_at_head &&
+                            self.cfg.disable_nonce_check
+                        {
                             self.abort(AbortReason::FatalEvmError(txid));
+                        } else {
+                            self.abort(AbortReason::FallbackSequential);
                         }
                     }
                     #[cfg(feature = "verif")]
